@@ -381,8 +381,8 @@ def procStepCore (st : ProcEng) (t : Tokens) (_impl : Option String) : ProcEng Ã
   | "apphostile" =>
     (st, { model := "crash=0", specFails := match _impl with
       | some line => if line == "crash=0" then [] else
-          ["C10 containment: creating the run of an application whose App message announces span queue size " ++ kvOr t "sq" "?" ++
-           " terminates the processor goroutine (the worker exits, every buffered harvest is lost)"]
+          ["C10 containment: handling this application description (span queue size " ++ kvOr t "sq" "0" ++
+           ", strings as given) on the processor goroutine panics: the worker exits, every buffered harvest is lost"]
       | none => [] })
   | "advance" =>
     ({ st with s := { st.s with now := st.s.now + (tokNat t 2 : Int) * 1000000000 } }, { model := "ok" })
